@@ -1,4 +1,5 @@
 import Rp2.Proofs.Balance
+import Rp2.Proofs.BalanceTheorems
 /-! # C08 — histories that overdraw an account are rejected unless -n is given -/
 namespace Rp2.C08
 open Rp2
@@ -8,6 +9,21 @@ theorem rejected_iff_some_prefix_overdrawn (below : Int → Bool) (hanti : ∀ x
   replay_error_iff below hanti txs b hb
 theorem allowed_never_rejects (below : Int → Bool) (txs : List BTx) (b : Bal) :
     replay below true b txs = .ok (balAfter b txs) := replay_allow below txs b
+/-- the tolerance on the 10⁻¹¹ grid: "below tolerance" ⇔ balance ≤ −6·10⁻¹¹ (so more than 10⁻¹⁰ below zero is always rejected,
+    non-negative never) -/
+theorem tolerance_on_grid (u : Int) : belowTol u = true ↔ u ≤ -6 := belowTol_iff u
+/-- **on the executable model** (`balances`): rejected ⇔ some account is at or below −6·10⁻¹¹ after some chronological prefix -/
+theorem model_rejected_iff (toD : Option Int) (ins : List InTx) (outs : List OutTx) (intras : List IntraTx)
+    (hnn : ∀ t ∈ balanceOrder toD ins outs intras, t.NonNeg) :
+    (∃ a, balances false toD ins outs intras = .error a) ↔
+      ∃ p a, p <+: (balanceOrder toD ins outs intras).map toBTx ∧ balAfter (fun _ => 0) p a ≤ -6 := balances_rejected_iff toD ins outs intras hnn
+theorem model_allow_negative (toD : Option Int) (ins : List InTx) (outs : List OutTx) (intras : List IntraTx)
+    (hnn : ∀ t ∈ balanceOrder toD ins outs intras, t.NonNeg) : ∃ bs, balances true toD ins outs intras = .ok bs :=
+  balances_allow_negative toD ins outs intras hnn
+theorem model_never_negative_never_rejected (toD : Option Int) (ins : List InTx) (outs : List OutTx) (intras : List IntraTx)
+    (hnn : ∀ t ∈ balanceOrder toD ins outs intras, t.NonNeg)
+    (hpos : ∀ p a, p <+: (balanceOrder toD ins outs intras).map toBTx → 0 ≤ balAfter (fun _ => 0) p a) :
+    ∃ bs, balances false toD ins outs intras = .ok bs := balances_never_negative_ok toD ins outs intras hnn hpos
 /-- non-vacuity: the code's tolerance on the grid (`x ≤ -6` units) is antitone -/
 example : ∀ x y : Int, x ≤ y → decide (y ≤ -6) = true → decide (x ≤ -6) = true := by
   intro x y h1 h2; simp only [decide_eq_true_eq] at *; omega
